@@ -451,6 +451,36 @@ def immut(ctx, iters):
                     ctx.V(f"C12:immutability:{tname}.{name}", f"{tname}.{name}{tuple(repr(a) for a in args)} changed the receiver's state ({o!r})", {"kind": "immut", "type": tname, "member": name, "value": repr(o)})
                 if [fp(a) for a in args] != bargs:
                     ctx.V(f"C12:immutability:arg-of-{tname}.{name}", f"{tname}.{name} changed an argument's state", {"kind": "immut", "type": tname, "member": name})
+    # augmented assignment: `x op= y` on a value type must leave the object that x referred to unchanged (and shared constants intact)
+    import operator
+    from pyoda_time import Period
+    OPS = [("+=", operator.iadd), ("-=", operator.isub), ("*=", operator.imul), ("/=", operator.itruediv), ("|=", operator.ior), ("&=", operator.iand)]
+    shared = {"Period.zero": Period.zero, "Duration.zero": Duration.zero, "Offset.zero": Offset.zero, "LocalTime.midnight": LocalTime.midnight}
+    shared_fp = {k: fp(v) for k, v in shared.items()}
+    for it in range(max(40, iters // 3)):
+        P = pool(); P2 = pool()
+        for tname in TYPES:
+            a = P[tname]
+            for opn, op in OPS:
+                for b in (P2.get(tname), P2["Duration"], P2["Period"], P2["PeriodT"], P2["int"], P2["Offset"]):
+                    before = fp(a); alias = a
+                    try:
+                        r = op(a, b)
+                    except Exception as e:  # noqa: BLE001
+                        ctx.exc(e); continue
+                    ctx.ev(); ctx.count("immut_calls"); ctx.key(("immut", tname, opn))
+                    if fp(alias) != before:
+                        ctx.V(f"C12:immutability:{tname}{opn}", f"{tname} `x {opn} y` changed the object x referred to in place (x was {before!r}, y={b!r})", {"kind": "immut", "type": tname, "member": opn})
+        for sname in ("Period.zero",):
+            z0 = Period.between(P["LocalDate"], P["LocalDate"])   # hands out the shared zero
+            try:
+                z0 += P2["Period"]
+            except Exception as e:  # noqa: BLE001
+                ctx.exc(e)
+        for k, v in shared.items():
+            if fp(v) != shared_fp[k]:
+                ctx.V(f"C12:immutability:shared-constant:{k}", f"the shared constant {k} changed value after augmented assignments on values equal to it", {"kind": "immut", "type": k, "member": "shared"})
+                shared_fp[k] = fp(v)
     ctx.sample({"kind": "immut", "types": len(TYPES), "iters": iters}, cap=8)
 
 
